@@ -459,6 +459,8 @@ func sameCallees(fn *ssa.Function) []string {
 					n = sc.Name()
 				} else if c.Common().IsInvoke() {
 					n = c.Common().Method.Name()
+				} else if pv, ok := c.Common().Value.(*ssa.Parameter); ok {
+					n = pv.Name()
 				}
 				if n != "" && !seen[n] {
 					seen[n] = true
